@@ -23,6 +23,11 @@ package server
 
 //@ func sendEthernet
 //@   requires valid4(resp)
+// C15 (link-level unicast): the frame handed to the serialiser is addressed to the client's hardware
+// address and to yiaddr, from port 67 to port 68, and it leaves through the given interface
+//@   assert[C15:frame-is-addressed-to-the-client] before "gopacket.SerializeLayers(buf, opts, &eth, &ip, &udp, dhcp)": eth.DstMAC == resp.ClientHWAddr && ip.DstIP == resp.YourIPAddr && \
+//@       ip.Protocol == 17 && udp.SrcPort == 67 && udp.DstPort == 68 && eth.EthernetType == 2048
+//@   assert[C15:frame-leaves-through-the-given-interface] before "syscall.Sendto(fd, data, 0, &ethAddr)": ethAddr.Ifindex == iface.Index
 //@   modifies sent, sent_l2, sent_l2_resp, sent_l2_ifindex
 //@   trusted-ensures
 //@   ensures (sent == old(sent) && err != nil) || (sent == old(sent) + 1 && sent_l2 && sent_l2_resp == resp && sent_l2_ifindex == iface.Index)
